@@ -188,10 +188,13 @@ def collect(rep, pid, tier, seed):
             for route in ("fw", "rv"):
                 k = (J.key(t), v, route)
                 if k not in keys:
-                    o = J.build_tree(t)
-                    un = o._synthetic_partial(v) if route == "fw" else o._synthetic_partials().get(v, S.Constant(0))
                     keys[k] = len(trees_attr)
-                    trees_attr.append(J.expr_to_E(un))
+                    try:
+                        o = J.build_tree(t)
+                        un = o._synthetic_partial(v) if route == "fw" else o._synthetic_partials().get(v, S.Constant(0))
+                        trees_attr.append(J.expr_to_E(un))
+                    except Exception:
+                        trees_attr.append(J.Const(0))    # cannot even be built: certainly not the named finding
         for t, v in model_bad:            # the model's own failures first (few): they must be attributable, whatever the cap
             need(t, v)
         for item in pending:
